@@ -2053,9 +2053,9 @@ seq_t dtw_warping_paths_affinity_ndim(seq_t *wps,
                 d += SEDIST(s1[ri_idx + d_i], s2[ci_idx + d_i]);
             }
             d = exp(-gamma * d);
-            dtw_prev = MAX3(wps[ri_width  + wpsi -1] - p.penalty,
+            dtw_prev = MAX3(wps[ri_width  + wpsi -1] - settings->penalty,
                             wps[ri_widthp + wpsi -1], // diagonal
-                            wps[ri_widthp + wpsi   ] - p.penalty);
+                            wps[ri_widthp + wpsi   ] - settings->penalty);
             if (d < tau) {
                 dtw_prev = delta + delta_factor * dtw_prev;
             } else {
@@ -2099,9 +2099,9 @@ seq_t dtw_warping_paths_affinity_ndim(seq_t *wps,
                 d += SEDIST(s1[ri_idx + d_i], s2[ci_idx + d_i]);
             }
             d = exp(-gamma * d);
-            dtw_prev = MAX3(wps[ri_width  + wpsi -1] - p.penalty,
+            dtw_prev = MAX3(wps[ri_width  + wpsi -1] - settings->penalty,
                             wps[ri_widthp + wpsi -1], // diagonal
-                            wps[ri_widthp + wpsi   ] - p.penalty);
+                            wps[ri_widthp + wpsi   ] - settings->penalty);
             if (d < tau) {
                 dtw_prev = delta + delta_factor * dtw_prev;
             } else {
@@ -2145,9 +2145,9 @@ seq_t dtw_warping_paths_affinity_ndim(seq_t *wps,
                 d += SEDIST(s1[ri_idx + d_i], s2[ci_idx + d_i]);
             }
             d = exp(-gamma * d);
-            dtw_prev = MAX3(wps[ri_width  + wpsi -1] - p.penalty,
+            dtw_prev = MAX3(wps[ri_width  + wpsi -1] - settings->penalty,
                             wps[ri_widthp + wpsi   ], // diagonal
-                            wps[ri_widthp + wpsi +1] - p.penalty);
+                            wps[ri_widthp + wpsi +1] - settings->penalty);
             if (d < tau) {
                 dtw_prev = delta + delta_factor * dtw_prev;
             } else {
@@ -2201,9 +2201,9 @@ seq_t dtw_warping_paths_affinity_ndim(seq_t *wps,
                 d += SEDIST(s1[ri_idx + d_i], s2[ci_idx + d_i]);
             }
             d = exp(-gamma * d);
-            dtw_prev = MAX3(wps[ri_width  + wpsi -1] - p.penalty,
+            dtw_prev = MAX3(wps[ri_width  + wpsi -1] - settings->penalty,
                             wps[ri_widthp + wpsi -1], // diagonal
-                            wps[ri_widthp + wpsi   ] - p.penalty);
+                            wps[ri_widthp + wpsi   ] - settings->penalty);
             if (d < tau) {
                 dtw_prev = delta + delta_factor * dtw_prev;
             } else {
@@ -2389,9 +2389,9 @@ seq_t dtw_warping_paths_affinity_ndim_euclidean(seq_t *wps,
             }
             d = sqrt(d);
             d = exp(-gamma * d);
-            dtw_prev = MAX3(wps[ri_width  + wpsi -1] - p.penalty,
+            dtw_prev = MAX3(wps[ri_width  + wpsi -1] - settings->penalty,
                             wps[ri_widthp + wpsi -1], // diagonal
-                            wps[ri_widthp + wpsi   ] - p.penalty);
+                            wps[ri_widthp + wpsi   ] - settings->penalty);
             if (d < tau) {
                 dtw_prev = delta + delta_factor * dtw_prev;
             } else {
@@ -2436,9 +2436,9 @@ seq_t dtw_warping_paths_affinity_ndim_euclidean(seq_t *wps,
             }
             d = sqrt(d);
             d = exp(-gamma * d);
-            dtw_prev = MAX3(wps[ri_width  + wpsi -1] - p.penalty,
+            dtw_prev = MAX3(wps[ri_width  + wpsi -1] - settings->penalty,
                             wps[ri_widthp + wpsi -1], // diagonal
-                            wps[ri_widthp + wpsi   ] - p.penalty);
+                            wps[ri_widthp + wpsi   ] - settings->penalty);
             if (d < tau) {
                 dtw_prev = delta + delta_factor * dtw_prev;
             } else {
@@ -2483,9 +2483,9 @@ seq_t dtw_warping_paths_affinity_ndim_euclidean(seq_t *wps,
             }
             d = sqrt(d);
             d = exp(-gamma * d);
-            dtw_prev = MAX3(wps[ri_width  + wpsi -1] - p.penalty,
+            dtw_prev = MAX3(wps[ri_width  + wpsi -1] - settings->penalty,
                             wps[ri_widthp + wpsi   ], // diagonal
-                            wps[ri_widthp + wpsi +1] - p.penalty);
+                            wps[ri_widthp + wpsi +1] - settings->penalty);
             if (d < tau) {
                 dtw_prev = delta + delta_factor * dtw_prev;
             } else {
@@ -2540,9 +2540,9 @@ seq_t dtw_warping_paths_affinity_ndim_euclidean(seq_t *wps,
             }
             d = sqrt(d);
             d = exp(-gamma * d);
-            dtw_prev = MAX3(wps[ri_width  + wpsi -1] - p.penalty,
+            dtw_prev = MAX3(wps[ri_width  + wpsi -1] - settings->penalty,
                             wps[ri_widthp + wpsi -1], // diagonal
-                            wps[ri_widthp + wpsi   ] - p.penalty);
+                            wps[ri_widthp + wpsi   ] - settings->penalty);
             if (d < tau) {
                 dtw_prev = delta + delta_factor * dtw_prev;
             } else {
